@@ -14,6 +14,9 @@ This generator parses di.py with `ast` (never imports it) and writes `lean/Tranp
   * `recs`          — per method: dictionaries written on `self` / on `other`, dictionary attributes assigned on a new container
                       (with: is the value a fresh dict?), dictionaries that escape, and the methods called on `self`
                       (incl. `super()`, `cls`), on `other`, on a new container — each callee resolved for both dynamic classes
+  * `genCloneDI` / `genCloneLazy` / `genCombineDI` / `genCombineLazy` — the bodies of `_clone` and `combine` translated statement by
+                      statement into Lean terms over the model's `Cont` / `Dict` (`{**a, **b}` = `Dict.merge`, a filtering dict
+                      comprehension = `Dict.filterKeys`, `.copy()` = the same items; later statements see earlier assignments)
 Props/C19.lean computes the transitive write sets from `recs` (kernel) and proves that the model writes nothing else
 (`code_effects`, `model_effects`, `state_fields`, `containers_own_their_dicts`).
 
@@ -97,6 +100,23 @@ def scan_method(cls: str, fn: ast.FunctionDef, methods: dict[str, set[str]]) -> 
 			raise TranslateError(f'{where}: global / nonlocal')
 		if isinstance(n, (ast.FunctionDef, ast.AsyncFunctionDef, ast.ClassDef, ast.Lambda)) and n is not fn:
 			raise TranslateError(f'{where}: nested definition {type(n).__name__}')
+
+	local_names = set(params)
+	for n in ast.walk(fn):
+		if isinstance(n, ast.Name) and isinstance(n.ctx, ast.Store):
+			local_names.add(n.id)
+	for n in ast.walk(fn):
+		# state outside the four dictionaries: class objects used as values, stores into anything that is not a local or a container
+		if isinstance(n, ast.Name) and n.id in CLASSES:
+			raise TranslateError(f'{where}:{n.lineno}: class object {n.id} used inside a method (possible class-level state)')
+		if isinstance(n, (ast.Subscript, ast.Attribute)) and isinstance(n.ctx, (ast.Store, ast.Del)):
+			root: ast.AST = n
+			while isinstance(root, (ast.Subscript, ast.Attribute)):
+				root = root.value
+			if not (isinstance(root, ast.Name) and root.id in local_names):
+				raise TranslateError(f'{where}:{n.lineno}: store into `{ast.unparse(n)}` (state outside the method)')
+		if isinstance(n, (ast.Import, ast.ImportFrom)):
+			raise TranslateError(f'{where}:{n.lineno}: import inside a method')
 
 	def container_call(call: ast.AST) -> tuple[str, str] | None:
 		"""(receiver role, method) of a call on a container, `cls()` / `self.__class__()` = ('new', '__init__')"""
@@ -195,6 +215,12 @@ def scan_method(cls: str, fn: ast.FunctionDef, methods: dict[str, set[str]]) -> 
 					pass
 				else:
 					add('escapes', field)
+			elif n.attr == '__class__':
+				# only `self.__class__()`, `isinstance(x, other.__class__)` and the text of an error message
+				if not (isinstance(p, ast.FormattedValue) or isinstance(p, ast.Call) and (p.func is n or isinstance(p.func, ast.Name) and p.func.id in PURE_WITH_CONTAINER and n in p.args)):
+					raise TranslateError(f'{where}:{n.lineno}: `{ast.unparse(p)}` (class object of a container used as a value)')
+			elif n.attr.startswith('__') and n.attr.endswith('__') and n.attr not in methods['DI'] | methods['LazyDI']:
+				raise TranslateError(f'{where}:{n.lineno}: special attribute {n.attr} of a container')
 			elif n.attr.startswith('__') and not n.attr.endswith('__') and n.attr not in methods['DI'] | methods['LazyDI']:
 				raise TranslateError(f'{where}:{n.lineno}: unknown private attribute {n.attr} (state the model does not have)')
 			elif not n.attr.startswith('__') and n.attr not in methods['DI'] | methods['LazyDI'] and isinstance(n.ctx, (ast.Store, ast.Del)):
@@ -215,6 +241,131 @@ def scan_method(cls: str, fn: ast.FunctionDef, methods: dict[str, set[str]]) -> 
 				continue  # `self.combine(other)`-like: the callee is analysed itself
 			raise TranslateError(f'{where}:{n.lineno}: container `{n.id}` used as a value in {type(p).__name__}')
 	return rec
+
+
+# ---------------------------------------------------------------------------------------------
+# the dictionary-building methods `_clone` / `combine`, translated statement by statement into Lean terms
+
+
+def _field_of(e: ast.expr, env: dict[str, str]) -> str | None:
+	"""`<container>.__field` → Lean `<var>.<field>`"""
+	if isinstance(e, ast.Attribute) and e.attr in FIELDS and isinstance(e.value, ast.Name) and e.value.id in env:
+		return f'{env[e.value.id]}.{FIELDS[e.attr]}'
+	return None
+
+
+def _cond(c: ast.expr, k: str, env: dict[str, str], where: str) -> str:
+	if isinstance(c, ast.UnaryOp) and isinstance(c.op, ast.Not):
+		return f'!({_cond(c.operand, k, env, where)})'
+	if isinstance(c, ast.BoolOp):
+		return '(' + (' && ' if isinstance(c.op, ast.And) else ' || ').join(_cond(v, k, env, where) for v in c.values) + ')'
+	if (isinstance(c, ast.Call) and isinstance(c.func, ast.Attribute) and c.func.attr == '_binded' and isinstance(c.func.value, ast.Name)
+			and c.func.value.id in env and len(c.args) == 1 and isinstance(c.args[0], ast.Name) and c.args[0].id == k and not c.keywords):
+		return f'{env[c.func.value.id]}.binded {k}'
+	if isinstance(c, ast.Compare) and len(c.ops) == 1 and isinstance(c.left, ast.Name) and c.left.id == k:
+		f = _field_of(c.comparators[0], env)
+		if f is not None and isinstance(c.ops[0], ast.In):
+			return f'({f}).contains {k}'
+		if f is not None and isinstance(c.ops[0], ast.NotIn):
+			return f'!(({f}).contains {k})'
+	raise TranslateError(f'{where}: filter condition `{ast.unparse(c)}`')
+
+
+def _dict_expr(e: ast.expr, env: dict[str, str], where: str) -> str:
+	f = _field_of(e, env)
+	if f is not None:
+		return f
+	if isinstance(e, ast.Call) and isinstance(e.func, ast.Attribute) and e.func.attr == 'copy' and not e.args and not e.keywords:
+		f = _field_of(e.func.value, env)
+		if f is not None:
+			return f  # a copy has the same items (that it is a new object is `containers_own_their_dicts`)
+	if isinstance(e, ast.Dict) and e.keys and all(k is None for k in e.keys):
+		parts = [_dict_expr(v, env, where) for v in e.values]
+		out = parts[0]
+		for nxt in parts[1:]:
+			out = f'Dict.merge ({out}) ({nxt})'
+		return out
+	if isinstance(e, ast.Dict) and not e.keys:
+		return '{}'
+	if isinstance(e, ast.DictComp) and len(e.generators) == 1:
+		g = e.generators[0]
+		if (not g.is_async and isinstance(g.target, ast.Tuple) and len(g.target.elts) == 2 and all(isinstance(x, ast.Name) for x in g.target.elts)
+				and isinstance(e.key, ast.Name) and isinstance(e.value, ast.Name) and e.key.id == g.target.elts[0].id and e.value.id == g.target.elts[1].id
+				and isinstance(g.iter, ast.Call) and isinstance(g.iter.func, ast.Attribute) and g.iter.func.attr == 'items' and not g.iter.args):
+			src = _dict_expr(g.iter.func.value, env, where)
+			k = g.target.elts[0].id
+			if not k.isidentifier() or k in env.values():
+				raise TranslateError(f'{where}: loop variable {k}')
+			cond = ' && '.join(f'({_cond(c, k, env, where)})' for c in g.ifs) or 'true'
+			return f'Dict.filterKeys ({src}) (fun {k} => {cond})'
+	raise TranslateError(f'{where}: dictionary expression `{ast.unparse(e)}`')
+
+
+def _builder(cls: str, fn: ast.FunctionDef, methods: dict[str, set[str]]) -> list[str]:
+	"""Lean `let` chain for a method of the shape: [guard]; di = <create>; di.__f = <dict expr>; …; return di"""
+	where = f'{SOURCE}:{fn.lineno} {cls}.{fn.name}'
+	body = [st for st in fn.body if not _is_doc(st)]
+	params = [a.arg for a in fn.args.args]
+	env = {'self': 'slf'}
+	if fn.name == 'combine':
+		if params != ['self', 'other']:
+			raise TranslateError(f'{where}: parameters {params}')
+		env['other'] = 'other'
+		if cls == 'DI':
+			g = body[0] if body else None
+			if not (isinstance(g, ast.If) and not g.orelse and ast.unparse(g.test) == 'not isinstance(self, other.__class__)'
+					and len(g.body) == 1 and isinstance(g.body[0], ast.Raise) and isinstance(g.body[0].exc, ast.Call)
+					and ast.unparse(g.body[0].exc.func) == 'TypeError'):
+				raise TranslateError(f'{where}: first statement is not the class guard raising TypeError')
+			body = body[1:]
+	elif params != ['self']:
+		raise TranslateError(f'{where}: parameters {params}')
+	if len(body) < 2 or not (isinstance(body[-1], ast.Return) and isinstance(body[-1].value, ast.Name)):
+		raise TranslateError(f'{where}: does not end with `return <name>`')
+	new = body[-1].value.id
+	first = body[0]
+	if not (isinstance(first, ast.Assign) and len(first.targets) == 1 and isinstance(first.targets[0], ast.Name) and first.targets[0].id == new):
+		raise TranslateError(f'{where}: first statement does not create `{new}`')
+	create = ast.unparse(first.value)
+	created = {
+		('DI', '_clone', 'self.__class__()'): '({ lazy := slf.lazy } : Cont)',
+		('LazyDI', '_clone', 'super()._clone()'): 'genCloneDI slf',
+		('DI', 'combine', 'self._clone()'): 'clone slf',
+		('LazyDI', 'combine', 'super().combine(other)'): 'genCombineDI genCloneLazy slf other',
+	}.get((cls, fn.name, create))
+	if created is None:
+		raise TranslateError(f'{where}: `{new} = {create}`')
+	if cls == 'LazyDI' and '_clone' not in methods['LazyDI']:
+		raise TranslateError(f'{where}: LazyDI._clone is not defined (dispatch of self._clone() changed)')
+	env[new] = 'di'
+	lines = [f'  let di : Cont := {created}']
+	for st in body[1:-1]:
+		if not (isinstance(st, ast.Assign) and len(st.targets) == 1):
+			raise TranslateError(f'{where}:{st.lineno}: statement {type(st).__name__}')
+		t = st.targets[0]
+		if not (isinstance(t, ast.Attribute) and t.attr in FIELDS and isinstance(t.value, ast.Name) and t.value.id == new):
+			raise TranslateError(f'{where}:{st.lineno}: assignment target `{ast.unparse(t)}`')
+		lines.append(f'  let di : Cont := {{ di with {FIELDS[t.attr]} := {_dict_expr(st.value, env, f"{where}:{st.lineno}")} }}')
+	lines.append('  di')
+	return lines
+
+
+def builders(fns: dict[str, list[ast.FunctionDef]], methods: dict[str, set[str]]) -> list[str]:
+	def get(cls: str, name: str) -> ast.FunctionDef:
+		for fn in fns[cls]:
+			if fn.name == name:
+				return fn
+		raise TranslateError(f'{cls}.{name} is not defined')
+	out: list[str] = []
+	for cls, name, head, doc in [
+		('DI', '_clone', 'def genCloneDI (slf : Cont) : Cont :=', '`DI._clone`'),
+		('LazyDI', '_clone', 'def genCloneLazy (slf : Cont) : Cont :=', '`LazyDI._clone`'),
+		('DI', 'combine', 'def genCombineDI (clone : Cont → Cont) (slf other : Cont) : Cont :=', '`DI.combine` after its class guard; `clone` is what `self._clone()` dispatches to'),
+		('LazyDI', 'combine', 'def genCombineLazy (slf other : Cont) : Cont :=', '`LazyDI.combine` (`super().combine(other)` runs `DI.combine` on a LazyDI: `self._clone()` is `LazyDI._clone`)'),
+	]:
+		fn = get(cls, name)
+		out += [f'/-- {doc} ({SOURCE}:{fn.lineno}), statement by statement -/', head, *_builder(cls, fn, methods), '']
+	return out
 
 
 def load() -> dict[str, Any]:
@@ -276,7 +427,7 @@ def load() -> dict[str, Any]:
 			for key in ('selfCalls', 'otherCalls', 'newCalls'):
 				r[key] = [(resolve(c.name, kind, name, 'DI'), resolve(c.name, kind, name, 'LazyDI')) for kind, name in r[key]]
 			recs.append({'cls': c.name, 'name': fn.name, 'line': fn.lineno, **r})
-	return {'sha': hashlib.sha256(text.encode()).hexdigest(), 'fields': fields, 'recs': recs}
+	return {'sha': hashlib.sha256(text.encode()).hexdigest(), 'fields': fields, 'recs': recs, 'builders': builders(fns, methods)}
 
 
 def _fl(fs: list[str]) -> str:
@@ -319,7 +470,7 @@ def render(t: dict[str, Any]) -> str:
 			f"    newAssigns := [{', '.join(f'(.{f}, {str(fr).lower()})' for f, fr in r['newAssigns'])}], escapes := {_fl(r['escapes'])},\n"
 			f"    selfCalls := {_cl(r['selfCalls'])}, otherCalls := {_cl(r['otherCalls'])}, newCalls := {_cl(r['newCalls'])} }}")
 	out.append(',\n'.join(rows))
-	out += [']', '', 'end Tranp.Generated.DIState', '']
+	out += [']', '', *t['builders'], 'end Tranp.Generated.DIState', '']
 	return '\n'.join(out)
 
 
